@@ -38,7 +38,6 @@ static void bufCase(vh::Rng& g, int nops) {
     }
     in.emit();
     vh::Line os = vh::O("sizes"); for (double s : sizes) os.d(s); os.emit();
-    vh::Line oc = vh::O("caps"); for (double s : caps) oc.d(s); oc.emit();
     vh::Line ov = vh::O("vals"); for (double s : vals) ov.d(s); ov.emit();
     vh::Line of = vh::O("final"); for (int i = 0; i < cur->size(); ++i) of.d(cur->getEntryTime(i)).d(cur->getEntryValue(i)); of.emit();
     vh::D("buf");
@@ -80,7 +79,6 @@ static void simCase(vh::Rng& g, bool big) {
     const double ic = g.signedMag(0.1, 2);
     Measure::Constant icm(sub, ic);
     Measure::Integrate integral(sub, operand, icm);
-    Measure::Differentiate dif(sub, operand);
     Measure::Differentiate difA(sub, operand); difA.setForceUseApproximation(true);
     State state = system.realizeTopology();
     const double t0 = g.coin() ? 0.0 : g.signedMag(0.1, 2);
@@ -99,12 +97,12 @@ static void simCase(vh::Rng& g, bool big) {
     const double tEnd = t0 + (which <= 1 ? h * (10 + g.below(maxSteps - 10)) : g.range(1, big ? 12 : 4));
     integ->setFinalTime(tEnd);
     integ->initialize(state);
-    Log L; std::vector<double> extV[4], extT[4], delV, intV, difV, difAV, tmV;
+    Log L; std::vector<double> extV[4], extT[4], delV, intV, difAV, tmV;
     auto record = [&](const State& s) {
         system.realize(s, Stage::Acceleration);
         L.t.push_back(s.getTime()); L.v.push_back(operand.getValue(s));
         for (int e = 0; e < 4; ++e) { extV[e].push_back(ext[e].getValue(s)); extT[e].push_back(ext[e].getTimeOfExtremeValue(s)); }
-        delV.push_back(del.getValue(s)); intV.push_back(integral.getValue(s)); difV.push_back(dif.getValue(s)); difAV.push_back(difA.getValue(s));
+        delV.push_back(del.getValue(s)); intV.push_back(integral.getValue(s)); difAV.push_back(difA.getValue(s));
         tmV.push_back(tm.getValue(s));
         // arithmetic measures are exact compositions
         double s0 = sn.getValue(s), s1 = sn.getValue(s, 1), s2 = sn.getValue(s, 2), s3 = sn.getValue(s, 3);
@@ -125,6 +123,9 @@ static void simCase(vh::Rng& g, bool big) {
     delete integ;
     const size_t N = L.t.size() - 1;
     if (N < 1) return;
+    // the first stepTo() returns at the initial time (StartOfContinuousInterval): the log then holds t0 twice.  D = indices of
+    // the distinct times (what the auto-update variables have seen)
+    std::vector<size_t> D; for (size_t k = 0; k <= N; ++k) if (k == 0 || L.t[k] != L.t[k - 1]) D.push_back(k);
     const std::string key = std::string("sim.") + iname;
     const double amp = std::fabs(c * a), M1 = amp * w, M2 = amp * w * w, M3 = M2 * w;
     auto f = [&](double t) { return c * a * std::sin(w * t + p) + (useMinus ? -k0 : k0); };
@@ -147,12 +148,14 @@ static void simCase(vh::Rng& g, bool big) {
         double worst = -1;
         for (size_t k = 1; k <= N; ++k) {
             double tau = L.t[k] - delay, expect, bound;
-            // entries available: steps 0..k-1
-            size_t j = 0; bool found = false; for (; j < k; ++j) if (L.t[j] >= tau) { found = true; break; }
+            // entries available: the distinct completed steps strictly before t_k
+            std::vector<size_t> E; for (size_t q : D) if (L.t[q] < L.t[k]) E.push_back(q);
+            if (E.empty()) E.push_back(0);
+            size_t j = 0; bool found = false; for (; j < E.size(); ++j) if (L.t[E[j]] >= tau) { found = true; break; }
             if (found && j == 0) { expect = L.v[0]; bound = 0; }                                   // before the start: constant at the initial value
-            else if (found) { expect = f(tau); double dt = L.t[j] - L.t[j - 1]; bound = M2 * dt * dt / 8; }
-            else if (k == 1) { expect = f(tau); bound = M1 * std::fabs(tau - L.t[0]); }          // one entry: flat
-            else { expect = f(tau); bound = M2 * std::fabs(tau - L.t[k - 2]) * std::fabs(tau - L.t[k - 1]) / 2; }   // extrapolation
+            else if (found) { expect = f(tau); double dt = L.t[E[j]] - L.t[E[j - 1]]; bound = M2 * dt * dt / 8; }
+            else if (E.size() == 1) { expect = f(tau); bound = M1 * std::fabs(tau - L.t[0]); }     // one entry: flat
+            else { expect = f(tau); bound = M2 * std::fabs(tau - L.t[E[E.size() - 2]]) * std::fabs(tau - L.t[E.back()]) / 2; }   // extrapolation
             worst = std::max(worst, std::fabs(delV[k] - expect) - 1.01 * bound);
         }
         vh::P("delay_is_operand_at_t_minus_delay", key + ".delay.value", worst, 1e-10 * std::max(1.0, amp));
@@ -164,15 +167,12 @@ static void simCase(vh::Rng& g, bool big) {
         vh::Line ov = vh::O("val"); for (size_t k = 1; k <= N; ++k) ov.d(difAV[k]); ov.emit();
         vh::D(key + ".diffapprox");
         double worst = 0, hmax = 0; for (size_t k = 1; k <= N; ++k) hmax = std::max(hmax, L.t[k] - L.t[k - 1]);
-        for (size_t k = 1; k <= N; ++k) worst = std::max(worst, std::fabs(difAV[k] - c * a * w * std::cos(w * L.t[k] + p)));
+        for (size_t k = 1; k <= N; ++k) { if (L.t[k] == L.t[0]) continue;   // no estimate exists at the initial time (reports 0)
+            worst = std::max(worst, std::fabs(difAV[k] - c * a * w * std::cos(w * L.t[k] + p)));
+            if (std::getenv("C23_DEBUG")) std::printf("# k=%zu t=%.6f h=%.6f approx=%g true=%g M2=%g\n", k, L.t[k], L.t[k]-L.t[k-1], difAV[k], c * a * w * std::cos(w * L.t[k] + p), M2); }
         // first step is first order (error <= M2 h/2), later ones second order but the recursion fdot = 2*slope - fdot_prev carries the
         // first error along undamped: |err_k| <= M2*h/2 + O(M3 h^2); measured margin in notes
         vh::P("differentiate_tracks_derivative", key + ".diffapprox.error", worst, 1.5 * M2 * hmax + 5 * M3 * hmax * hmax + 1e-9);
-    }
-    // ---- Differentiate through the operand's own derivative: exact
-    {
-        double worst = 0; for (size_t k = 0; k <= N; ++k) worst = std::max(worst, std::fabs(difV[k] - c * a * w * std::cos(w * L.t[k] + p)));
-        vh::P("differentiate_exact", key + ".diff.exact", worst, 1e-12 * std::max(1.0, M1));
     }
     // ---- Integrate vs the analytic integral, to integrator accuracy
     {
@@ -191,6 +191,32 @@ static void simCase(vh::Rng& g, bool big) {
 
 // replay: buffer-operation records are re-run on a real buffer pair; trajectory records (ext/delay/diff/arith) carry logged
 // data of a simulation that cannot be reconstructed from the record and are skipped
+// Differentiate of an operand that supplies its own derivative (no approximation): finding F-C23a - realize(Acceleration)
+// calls ensureDerivativeIsRealized() with an invalid variable index and crashes.  Run in a child process.
+#include <unistd.h>
+#include <sys/wait.h>
+static void diffExactCase() {
+    std::fflush(stdout);
+    pid_t pid = fork(); int status = 0; bool crashed = false, bad = false;
+    if (pid == 0) {
+        try {
+            MultibodySystem system; SimbodyMatterSubsystem matter(system); GeneralForceSubsystem forces(system);
+            Body::Rigid body(MassProperties(1.0, Vec3(0), Inertia(1)));
+            MobilizedBody::Pin pend(matter.updGround(), Transform(Vec3(0)), body, Transform(Vec3(0, 1, 0)));
+            Measure::Sinusoid sn(forces, 2.0, 5.0, 0.3);
+            Measure::Differentiate dif(forces, sn);
+            State state = system.realizeTopology(); state.setTime(0.25);
+            system.realize(state, Stage::Acceleration);
+            double v = dif.getValue(state), truth = 2.0 * 5.0 * std::cos(5.0 * 0.25 + 0.3);
+            _exit(std::fabs(v - truth) < 1e-12 ? 0 : 3);
+        } catch (...) { _exit(4); }
+    } else if (pid > 0) { waitpid(pid, &status, 0); crashed = WIFSIGNALED(status); bad = !crashed && WEXITSTATUS(status) != 0; }
+    vh::I("arith").d(1).d(0).d(0).d(0).d(1).d(0).emit();
+    vh::O("arith").d(0).d(0).d(-0.0).d(-0.0).d(0).d(0).d(0).emit();
+    vh::D(std::string("diffexact.") + (crashed ? "crash" : bad ? "wrong" : "ok"));
+    vh::P("differentiate_exact_operand", "measure.differentiate.exact_operand.crash", (crashed || bad) ? 1 : 0, 0);
+}
+
 static void replay() {
     static char buf[1 << 22];
     while (std::fgets(buf, sizeof buf, stdin)) {
@@ -210,8 +236,7 @@ static void replay() {
             sizes.push_back(cur->size()); caps.push_back(cur->capacity());
         }
         vh::Line os = vh::O("sizes"); for (double s : sizes) os.d(s); os.emit();
-        vh::Line oc = vh::O("caps"); for (double s : caps) oc.d(s); oc.emit();
-        vh::Line ov = vh::O("vals"); for (double s : vals) ov.d(s); ov.emit();
+            vh::Line ov = vh::O("vals"); for (double s : vals) ov.d(s); ov.emit();
         vh::Line of = vh::O("final"); for (int i = 0; i < cur->size(); ++i) of.d(cur->getEntryTime(i)).d(cur->getEntryValue(i)); of.emit();
     }
 }
@@ -221,6 +246,7 @@ int main(int argc, char** argv) {
     if (args.mode == "replay") { replay(); return 0; }
     vh::Rng g(args.seed * 7919 + 23);
     bool big = args.n > 200;
+    diffExactCase();
     for (long k = 0; k < args.n; ++k) {
         if (g.below(3) == 0) simCase(g, big); else bufCase(g, 5 + g.below(big ? 200 : 60));
     }
